@@ -291,6 +291,8 @@ def main(argv=None):
             f.write(dumps(evidence, indent=1))
     print("[%s] tier=%s seed=%d cases=%d held=%d violated=%d inconclusive=%d distinct_nontrivial=%d wall=%.1fs exit=%d" % (
         prop, a.tier, a.seed, len(specs), n_held, n_viol, n_inc, distinct, wall, exit_code))
+    slow = sorted(((r.get("wall_s", 0.0), s_.get("id")) for s_, r in zip(specs, results)), reverse=True)[:4]
+    print("[%s] slowest cases: %s" % (prop, ", ".join("%s %.0fs" % (i, w) for w, i in slow)))
     keys = sorted(obs)
     print("[%s] observed: %s" % (prop, ", ".join("%s=%s" % (k, ("%.4g" % obs[k] if isinstance(obs[k], float) else obs[k]))
                                                   for k in keys)))
